@@ -323,7 +323,15 @@ impl Interval {
         } else {
             let stride = match (self.stride, other.stride) {
                 (0, _) => other.stride,
-                (_, 0) => self.stride << other.bytesize().as_bit_length(),
+                (_, 0) => {
+                    // The shifted stride may not fit into 64 bit. In that case we ignore the stride.
+                    let shift = other.bytesize().as_bit_length() as u32;
+                    if shift < 64 && self.stride.leading_zeros() >= shift {
+                        self.stride << shift
+                    } else {
+                        1
+                    }
+                }
                 _ => 1u64 << other.stride.trailing_zeros(),
             };
             Interval {
